@@ -42,7 +42,9 @@ EXPLANATION = (
     "by the identity of the object looked up for the element - never by an attribute of that object (template .name/.path are not "
     "unique per node) or by a loop-invariant value.  R8 wherever circuit.py looks up the per-edge column index that _add_input writes "
     "(`source_idx`, and its target counterpart) with a default, the result is not tested by truthiness when the stored value is a "
-    "single index (index 0 is legal): presence is decided by membership, comparison with None or a raising look-up.  NOT decided: that get_nodes enumerates wildcards in declaration "
+    "single index (index 0 is legal): presence is decided by membership, comparison with None or a raising look-up.  R9 wherever a "
+    "get_nodes result is used by position (enumerate / zip / index / range(len)), it reaches that use in the resolver's order: "
+    "copies are fine, sorted / np.sort / np.unique / set / reversed / [::-1] / argsort indexing / in-place sort are reported.  NOT decided: that get_nodes enumerates wildcards in declaration "
     "order for every hierarchy (dict insertion order, library guarantee), the numerical values, what the backend does with the index."
 )
 RULE_TEXT = ("R1: one obligation per sink (call of get_nodes/_get_var_idx resolved through the call graph, subscript of the index "
@@ -187,6 +189,53 @@ def hosts_of(ctx, h, found, skip=(), depth: int = 2):
         if not any(u[0] is t for u in uniq):
             uniq.append((t, link))
     return uniq
+
+
+# --------------------------------------------------------------------------------------------
+# order of a resolved node list (shared with C08-R2)
+# --------------------------------------------------------------------------------------------
+
+ORDER_KEEPING_FUNCS = {"list", "tuple", "array", "asarray", "copy", "deepcopy"}
+ORDER_KEEPING_METHODS = {"tolist", "copy"}
+ORDER_CHANGING = {"sorted": "sorts it", "sort": "sorts it", "set": "turns it into a set (arbitrary order, duplicates dropped)",
+                  "frozenset": "turns it into a set (arbitrary order, duplicates dropped)", "reversed": "reverses it",
+                  "unique": "sorts it and drops duplicates (numpy.unique returns sorted output)", "fromkeys": "drops duplicates",
+                  "shuffle": "shuffles it", "permutation": "shuffles it", "flip": "reverses it", "argsort": "orders it by sorted position"}
+
+
+def peel_node_list(e: ast.AST):
+    """(innermost expression, [(wrapper name, effect)...]) after removing order-keeping wrappers (list, tuple, np.array, .tolist(),
+    [:]) and recording order-changing / duplicate-dropping ones (sorted, np.sort, set, reversed, np.unique, dict.fromkeys, [::-1],
+    indexing with an argsort); an unknown wrapper stops."""
+    changes = []
+    while True:
+        if isinstance(e, ast.Call) and isinstance(e.func, ast.Attribute) and e.func.attr in ORDER_KEEPING_METHODS and not e.args \
+                and not e.keywords:
+            e = e.func.value
+            continue
+        if isinstance(e, ast.Call) and len(e.args) >= 1 and not isinstance(e.args[0], ast.Starred):
+            nm = call_name(e)
+            if nm in ORDER_KEEPING_FUNCS and len(e.args) == 1 and all(k.arg in ("dtype", "copy") for k in e.keywords):
+                e = e.args[0]
+                continue
+            if nm in ORDER_CHANGING:
+                changes.append((nm, ORDER_CHANGING[nm]))
+                e = e.args[0]
+                continue
+        if isinstance(e, ast.Subscript) and isinstance(e.slice, ast.Slice) and e.slice.lower is None and e.slice.upper is None:
+            st = e.slice.step
+            if st is None:
+                e = e.value
+                continue
+            if isinstance(st, ast.UnaryOp) and isinstance(st.op, ast.USub) and isinstance(st.operand, ast.Constant) and st.operand.value == 1:
+                changes.append(("[::-1]", "reverses it"))
+                e = e.value
+                continue
+        if isinstance(e, ast.Subscript) and any(isinstance(n, ast.Call) and call_name(n) == "argsort" for n in ast.walk(e.slice)):
+            changes.append(("[argsort]", "re-orders it by sorted position"))
+            e = e.value
+            continue
+        return e, changes
 
 
 # --------------------------------------------------------------------------------------------
@@ -1947,6 +1996,82 @@ def r8_column_index_by_presence(ctx, rid):
     ctx.require(n_presence >= 1, f"{rid}: no place found where the presence of {sorted(keys)} on an edge is decided")
 
 
+# --------------------------------------------------------------------------------------------
+# R9 — every positional consumer of a resolved path sees the nodes in the resolver's own order
+# --------------------------------------------------------------------------------------------
+
+def r9_resolution_order_kept(ctx, rid):
+    """A wildcard path denotes a LIST of nodes, in the order get_nodes resolves it (declaration order of the circuit).  Consumers
+    that use positions in that list - column i of an input goes to entry i (enumerate / zip / index loops), `nodes[0]` is 'the' node
+    of a single-node output - must see that order; all consumers then agree on which node is number i.  A list that passes through
+    sorted / np.sort / np.unique / set / reversed / [::-1] / an argsort index, or is sorted / reversed in place, between the look-up
+    and such a use denotes another assignment of positions to nodes than everywhere else."""
+    n = 0
+    for f in ctx.repo.all_functions([REL]):
+        if not any(isinstance(c, ast.Call) and call_name(c) == "get_nodes" for c in walk_shallow(f.node)):
+            continue
+        rd = ctx.rd(f)
+
+        def trace(e, depth=5, seen=None):
+            """(the get_nodes call the value comes from | None, [(where, wrapper, effect)], root local names)"""
+            seen = set() if seen is None else seen
+            inner, changes = peel_node_list(e)
+            found, out, roots = None, [(e, nm, eff_) for nm, eff_ in changes], set()
+            if isinstance(inner, ast.Call) and call_name(inner) == "get_nodes":
+                return inner, out, roots
+            if isinstance(inner, ast.Name) and comp_generator_of(inner) is None and depth > 0:
+                roots.add(inner.id)
+                for d in rd.defs_reaching(inner):
+                    if (id(d), inner.id) in seen:
+                        continue
+                    seen.add((id(d), inner.id))
+                    v = assigned_value(d, inner.id)
+                    if v is None:
+                        continue
+                    g_, ch, rs = trace(v, depth - 1, seen)
+                    if g_ is not None:
+                        found = g_
+                        out += ch
+                        roots |= rs
+            return found, out, roots
+        uses = []          # (use node, list expression)
+        for c in ordered(walk_shallow(f.node)):
+            if isinstance(c, ast.Call) and isinstance(c.func, ast.Name) and c.func.id in ("enumerate", "zip") and c.args:
+                uses += [(c, a) for a in c.args if not isinstance(a, ast.Starred)]
+            elif isinstance(c, ast.Call) and isinstance(c.func, ast.Name) and c.func.id == "range" and len(c.args) == 1 \
+                    and isinstance(c.args[0], ast.Call) and call_name(c.args[0]) == "len" and len(c.args[0].args) == 1:
+                uses.append((c, c.args[0].args[0]))
+            elif isinstance(c, ast.Subscript) and isinstance(c.ctx, ast.Load) and not isinstance(c.slice, ast.Slice) \
+                    and isinstance(c.value, ast.Name):
+                uses.append((c, c.value))
+        seen_labels: Dict[str, int] = {}
+        for use, e in uses:
+            gn, changes, roots = trace(e)
+            if gn is None:
+                continue
+            # in-place re-ordering of the list (or of a local it was copied from)
+            for c in walk_shallow(f.node):
+                if isinstance(c, ast.Call) and isinstance(c.func, ast.Attribute) and c.func.attr in ("sort", "reverse") \
+                        and isinstance(c.func.value, ast.Name) and c.func.value.id in roots:
+                    changes.append((c, f".{c.func.attr}()", "re-orders it in place"))
+                elif isinstance(c, ast.Call) and call_name(c) == "shuffle" and c.args and isinstance(c.args[0], ast.Name) and c.args[0].id in roots:
+                    changes.append((c, "shuffle", "shuffles it in place"))
+            n += 1
+            txt = f"positional use {norm(use)[:70]} of {norm(gn)[:60]}"
+            seen_labels[txt] = seen_labels.get(txt, 0) + 1
+            label = txt + (f" #{seen_labels[txt]}" if seen_labels[txt] > 1 else "")
+            if changes:
+                where, nm, eff_ = changes[0]
+                ctx.violation(rid, f, use, f"the nodes that `{norm(gn)[:80]}` resolved reach `{norm(use)[:60]}` through `{nm}`, which {eff_}: "
+                                           f"position i no longer denotes the i-th node in the order the circuit declares them and every "
+                                           f"other consumer of the same path enumerates them, so e.g. column i of an input drives another "
+                                           f"node than the one whose output is reported as number i",
+                              {"operations": [x[1] for x in changes]}, label=label)
+            else:
+                ctx.ok(rid, f, use, "the node list is used by position in the order the resolver returned it (at most copied)", label=label)
+    ctx.require(n >= 2, f"{rid}: only {n} positional uses of a get_nodes result found in {REL}")
+
+
 RULES = [
     ("C06-R1", r1_namespaces, 11),     # 22 on the pinned tree; merging duplicated look-ups into helpers lowers the count
     ("C06-R2", r2_label_data_lockstep, 4),
@@ -1956,4 +2081,5 @@ RULES = [
     ("C06-R6", r6_identifier_not_consumed, 7),      # one per resolver (3 today) + one per call site (18 today, require >= 6)
     ("C06-R7", r7_per_node_decision_not_shared, 2),      # one per outermost loop of the resolver closure (+ one per memo)
     ("C06-R8", r8_column_index_by_presence, 1),
+    ("C06-R9", r9_resolution_order_kept, 2),
 ]
